@@ -37,7 +37,7 @@ def codec_c12(tier, seed):
 
 
 def codec_c11(tier, seed):
-    jobs = []
+    jobs = [J('vlq_kernel', 'jobs.codec:vlq_kernel', dict(bits=30), timeout=120)]
     for shape, bits in [([4], 5), ([5, 4], 2), ([1, 4], 3)]:
         jobs.append(J('roundtrip%s/b%d' % (shape, bits), 'jobs.codec:roundtrip', dict(shape=shape, bits=bits), timeout=400))
     jobs.append(J('lines_only[4, 4]/b3', 'jobs.codec:lines_only', dict(shape=[4, 4], bits=3), timeout=400))
@@ -143,6 +143,8 @@ C13_QUICK = [
     ('flat:nested[rawstr1,[orig2,rawstr1]]', CC(RS('!'), BX(CC(O('??'), RS('!')))), 'flat'),
     ('flat:nested[[orig1,orig1b],[rawstr1,orig1c]]', CC(BX(CC(O('?'), O('?', 'b.js'))), BX(CC(RS('!'), O('a?', 'c.js')))), 'flat'),
     ('flat:nested3[[[orig2],rawstr1]]', CC(BX(CC(BX(CC(O('??'))), RS('!')))), 'flat'),
+    ('noempty:concat[orig2,empty,rawstr1]', CC(O('??'), RS(''), RS('!')), 'noempty'),
+    ('noempty:concat[orig a,empty orig,empty concat,rawstr1,empty,orig b]', CC(O('a?'), O('', 'e.js'), BX(CC()), RS('!'), RS(''), O('?', 'b.js')), 'noempty'),
     ('inner:single[orig3]', CC(O('???')), 'inner'),
     ('inner:concat[empty,orig2,empty]', CC(RS(''), O('??'), RS('')), 'inner'),
     ('inner:boxed(orig3)', BX(O('???')), 'inner'),
@@ -320,6 +322,11 @@ EQ_QUICK = [
     ('concat[orig,rawstr]', CC(O('a?'), RS('!')), 1), ('concat[]', CC(), 0), ('nested concat', CC(BX(CC(O('?'), RS('a'))), RB('b')), 1),
     ('replace 2 unsorted', RP(O('abcd'), (2, 3, 'X', 'n'), (0, 1, 'Y')), 2), ('replace none', RP(O('a?')), 1),
     ('cached(orig)', CA(O('a?')), 2), ('cached(replace)', CA(RP(O('abc'), (1, 2, 'X'))), 1),
+    ('raw binary', {'kind': 'raw', 'text': '', 'bytes': [0xE2, 0x82, 97]}, 1), ('rawbuf binary', {'kind': 'rawbuf', 'text': '', 'bytes': [0xF8, 97]}, 1),
+]
+EQ_PAIRS = [
+    ('replace: hash between the mutations vs all at once', RP(O('abcd'), (2, 3, 'X', None, 1, ['hash']), (0, 1, 'Y')), RP(O('abcd'), (2, 3, 'X'), (0, 1, 'Y'))),
+    ('replace: source between the mutations vs all at once', RP(O('abcd'), (2, 3, 'X', 'n', 1, ['source']), (0, 1, 'Y'), (3, 4, 'Z', None, 0, ['hash'])), RP(O('abcd'), (2, 3, 'X', 'n'), (0, 1, 'Y'), (3, 4, 'Z', None, 0))),
 ]
 def _e(a, b, dyn=False): return (a, b, dyn)
 NEQ_QUICK = [
@@ -341,6 +348,10 @@ NEQ_QUICK = [
     ('concat child', _e(CC(O('a'), RS('b')), CC(O('a'), RS('c')))), ('concat order', _e(CC(RS('a'), RS('b')), CC(RS('b'), RS('a')))),
     ('concat prefix', _e(CC(O('a'), RS('b')), CC(O('a'), RS('b'), RS('c')))), ('concat empty vs one', _e(CC(), CC(RS('a')))),
     ('concat cut', _e(CC(RS('ab'), RS('c')), CC(RS('a'), RS('bc')))), ('concat child type', _e(CC(RS('a')), CC(R('a')))),
+    ('raw binary byte inside an invalid sequence', _e({'kind': 'raw', 'text': '', 'bytes': [0xF8, 97]}, {'kind': 'raw', 'text': '', 'bytes': [0xF9, 97]})),
+    ('rawbuf binary truncated sequences', _e({'kind': 'rawbuf', 'text': '', 'bytes': [0xE2]}, {'kind': 'rawbuf', 'text': '', 'bytes': [0xE2, 0x82]})),
+    ('concat[raw binary] child bytes', _e(CC({'kind': 'raw', 'text': '', 'bytes': [0xC3]}, RS('a')), CC({'kind': 'raw', 'text': '', 'bytes': [0xE2]}, RS('a')))),
+    ('replace added after an observation', _e(RP(O('abcd'), (2, 3, 'X', None, 1, ['hash']), (0, 1, 'Y')), RP(O('abcd'), (2, 3, 'X')))),
     ('cached inner', _e(CA(O('a?')), CA(O('b?')))), ('cached vs plain', _e(CA(O('ab')), O('ab'), True)), ('boxed concat vs flat leaf', _e(CC(RS('ab')), RS('ab'), True)),
 ]
 
@@ -350,6 +361,9 @@ def eq_jobs(tier, seed):
     for name, t, slots in EQ_QUICK:
         jobs.append(J('eq:' + name, 'jobs.eqhash:eqhash_job', dict(tree_a=t, history_slots=slots), timeout=600))
         jobs.append(J('eq/dyn:' + name, 'jobs.eqhash:eqhash_job', dict(tree_a=t, history_slots=min(slots, 1), dyn=True), timeout=600))
+    for name, a, b in EQ_PAIRS:
+        jobs.append(J('eq:' + name, 'jobs.eqhash:eqhash_job', dict(tree_a=a, tree_b=b, history_slots=0), timeout=600))
+        jobs.append(J('eq+history:' + name, 'jobs.eqhash:eqhash_job', dict(tree_a=b, tree_b=a, history_slots=1), timeout=600))
     return jobs
 
 
